@@ -200,3 +200,44 @@ def gen_single(rnd, shape, n):
     if shape == "dense_random":
         return {g: rnd.randrange(n) for g in range(n) if rnd.random() < 0.7}
     raise ValueError(shape)
+
+
+# ---------------------------------------------------------------- pair positioning big enough to overflow 16-bit offsets
+PAIRPOS_SHAPES = ["classes_2split", "classes_multi_glyph", "classes_value2", "classes_3split", "glyphs_split", "classes_small"]
+
+
+def gen_pairpos(rnd, shape):
+    """-> dict(n glyphs, kind 'classes'|'glyphs', left [[gid]], right [[gid]], value(i, j) -> (v1, v2)) as plain data:
+    {"n", "kind", "left", "right", "values": {(i, j): ((xPla, yPla, xAdv, yAdv), (..))}}.
+    A single subtable holds everything; its record array is larger than 64 KiB except for 'classes_small'."""
+    dims = {"classes_2split": (220, 180), "classes_multi_glyph": (200, 190), "classes_value2": (150, 120),
+            "classes_3split": (420, 170), "glyphs_split": (340, 90), "classes_small": (12, 9)}[shape]
+    nl, nr = dims
+    nl += rnd.randint(0, 7)
+    nr += rnd.randint(0, 5)
+    per = 2 if shape == "classes_multi_glyph" else 1
+    left, right, g = [], [], 1
+    for _ in range(nl):
+        k = rnd.randint(1, per + 1) if per > 1 else 1
+        left.append(list(range(g, g + k)))
+        g += k
+    for _ in range(nr):
+        k = rnd.randint(1, per) if per > 1 else 1
+        right.append(list(range(g, g + k)))
+        g += k
+    n = g + rnd.randint(1, 6)          # a few glyphs in no class at all
+    a, b, c = rnd.randrange(1, 500), rnd.randrange(1, 50), rnd.randrange(1000)
+    values = {}
+    for i in range(nl):
+        for j in range(nr):
+            x = ((i * a + j * b + c) % 1999) - 999
+            x = x if x else 1000
+            if shape == "classes_value2":
+                values[(i, j)] = ((0, 0, x, 0), (((i + j) % 7) - 3, 0, ((i * 3 + j) % 11) - 5, 0))
+            elif shape == "glyphs_split":
+                if (i + j) % 3 == 0:
+                    continue          # format 1 lists pairs individually: leave holes
+                values[(i, j)] = ((0, 0, x, 0), (0, 0, 0, 0))
+            else:
+                values[(i, j)] = ((0, 0, x, 0), (0, 0, 0, 0))
+    return {"n": n, "kind": "glyphs" if shape == "glyphs_split" else "classes", "left": left, "right": right, "values": values}
